@@ -114,6 +114,7 @@ def quiet(fn):
 # ------------------------------------------------------------------ history
 call_st = st.one_of(
     st.fixed_dictionaries({"f": st.just("map"), "layers": st.lists(st.sampled_from(["L1", "L2", "L3"]), min_size=1, max_size=2),
+                           "scatter": st.sampled_from([False, False, True]),
                            "res": st.sampled_from(["R", "R", "int"]), "dz": st.sampled_from([None, None, 0.3, 0.6]),
                            "op": st.sampled_from([None, "mean", "sum"]), "dx": st.sampled_from(["DX", "DX", None]),
                            "origin": st.sampled_from(["O", "O", None]), "dir": st.sampled_from(["z", "x", "N"]),
@@ -148,6 +149,8 @@ def _world(case):
         "L1": dg.layer("scalar1", **l1kw),
         "L2": dg.layer("scalar2"),
         "L3": dg.layer("vec"),
+        "L4": Layer(osyris.Vector(*[osyris.Array(values=np.array([0.2, 0.5, 0.8, 0.55]) + 0.01 * i, unit="cm") for i in range(3)],
+                                  name="sinks"), mode="scatter", c="red"),
         "R": {k: {"x": 8, "y": 4, "z": 3}[k] for k in case["rkeys"]},
         "O": osyris.Vector(0.53, 0.45, 0.57, unit="cm"),
         "N": osyris.Vector(1.0, 0.5, 2.0),
@@ -185,6 +188,13 @@ def _do_call(c, w):
         layers = [w[k] for k in c["layers"]]
         if c["plot"]:
             layers = [l for l in layers if l is not w["L3"]] or [w["L2"]]
+        if c.get("scatter"):
+            layers = layers + [w["L4"]]
+            if c["dir"] != "N":
+                kw["plot"] = True        # the scatter layer is only used when the figure is rendered
+                layers = [l for l in layers if l is not w["L3"]]
+                if all(l is w["L4"] for l in layers):
+                    layers = [w["L2"]] + layers
         return osyris.map(*layers, **kw)
     if f == "hist2d":
         kw = {"plot": c["plot"], "resolution": c["res"]}
@@ -238,7 +248,10 @@ def history(case, r):
         if (exc is None) != (excf is None):
             r.bad(["history-changes-outcome", c["f"]], f"call {i} {c}: raised {exc!r} here but {excf!r} with fresh arguments")
             return
-        names = [c["f"]] + [k for k in (c.get("layers") or [])] + (["R"] if c.get("res") == "R" else [])
+        names = [c["f"]] + [k for k in (c.get("layers") or [])] + (["R"] if c.get("res") == "R" else []) + (
+            ["L4"] if c.get("scatter") else [])
+        if c.get("scatter"):
+            r.label("scatter_layer")
         for nme in names:
             used[nme] = used.get(nme, 0) + 1
         if exc is not None:
@@ -264,7 +277,7 @@ OPTS = {
     "hist2d": ["mode", "norm", "vmin", "vmax", "operation", "cmap"],
     "hist1d": ["bins", "weights"],
 }
-VALUES = {"mode": ("image", "contourf"), "norm": ("log", "linear"), "vmin": (1.0, 2.0), "vmax": (50.0, 80.0),
+VALUES = {"mode": ("image", "contourf"), "norm": ("log", "linear"), "vmin": (0.0, 2.0), "vmax": (0, 80.0),
           "operation": ("mean", "sum"), "cmap": ("magma", "viridis"), "bins": (4, 9), "weights": ("W1", "W2")}
 
 
@@ -407,5 +420,5 @@ def subs(ctx):
     return [
         Sub("lattice", lattice, cases=_lattice_cases(), shard=False),
         Sub("history", history, strategy=hist_case_st, quick=120, thorough=600,
-            required={"resolution_dict_reused": 0.1, "calls_map": 0.5, "calls_hist2d": 0.15, "calls_hist1d": 0.15}),
+            required={"resolution_dict_reused": 0.1, "calls_map": 0.35, "calls_hist2d": 0.15, "calls_hist1d": 0.15}),
     ]
